@@ -70,7 +70,8 @@ func (eng *Engine) verifyFunc(sp *FuncSpec) (res *FuncResult) {
 				res.Err = u.msg
 				return
 			}
-			panic(r)
+			// an internal error of the generator on this function: the function is undecided, the check goes on
+			res.Err = fmt.Sprintf("internal error: %v", r)
 		}
 	}()
 	st := &State{reach: c.True(), cells: map[*Cell]*Term{}, heap: map[string]*Term{}}
@@ -145,6 +146,38 @@ func (eng *Engine) verifyFunc(sp *FuncSpec) (res *FuncResult) {
 	fr := e.newFrame(fn)
 	fr.spec = sp
 	fr.params = args
+	// a function literal verified on its own: every captured variable is a cell of the enclosing function holding
+	// an arbitrary value; distinct variables are distinct cells
+	for i, fv := range fn.FreeVars {
+		var facts []*Term
+		if eng.privateCapture(fn, i) {
+			// only the enclosing function and this literal ever touch the variable (loads and stores): no callee can
+			// change it behind the literal's back, so it is a cell, not a heap object
+			ty := deref(fv.Type())
+			e.cellN++
+			cell := &Cell{id: e.cellN, name: fv.Name(), typ: ty}
+			iv := tm.FreshTyped("cap_"+fv.Name(), ty, &facts)
+			e.assume(st, c.And(facts...))
+			if hasRefs(ty) {
+				e.assume(st, e.oldRefs(st, iv, ty))
+			}
+			st.cells[cell] = iv
+			fr.bindings = append(fr.bindings, Val{P: &Ptr{kind: pCell, cell: cell}})
+			continue
+		}
+		t := tm.FreshTyped("cap_"+fv.Name(), fv.Type(), &facts)
+		e.assume(st, c.And(facts...))
+		e.assume(st, c.Not(c.Eq(t, c.Int(0))))
+		if hasRefs(fv.Type()) {
+			e.assume(st, e.oldRefs(st, t, fv.Type()))
+		}
+		for _, b := range fr.bindings {
+			if b.T != nil && b.T.sort == t.sort {
+				e.assume(st, c.Not(c.Eq(b.T, t)))
+			}
+		}
+		fr.bindings = append(fr.bindings, Val{T: t})
+	}
 	fr.entry = st.clone()
 	// requires
 	for _, cl := range sp.Requires {
